@@ -34,6 +34,8 @@ type c04Case struct {
 	// OpOmitFalse: the program has no @genqlient comment except `# @genqlient(omitempty: false)` in front of EVERY
 	// operation: no variable and no input-object field may then be tagged omitempty, whatever the configuration
 	OpOmitFalse bool `json:"op_omitempty_false,omitempty"`
+	// ExpectOmit (hand-picked programs): "GoStruct.jsonName" -> whether the documented rules give that field omitempty
+	ExpectOmit map[string]bool `json:"expect_omitempty,omitempty"`
 }
 
 func runC04(c *Ctx) {
@@ -434,6 +436,30 @@ func c04Program(c *Ctx, b *Batch, pkg string, cs c04Case, src string, per int) {
 	}
 	consts, _ := c03Constants([]byte(src))
 	decls := parseGoDecls([]byte(src))
+	for _, key := range sortedKeysB(cs.ExpectOmit) {
+		want := cs.ExpectOmit[key]
+		parts := strings.SplitN(key, ".", 2)
+		found := false
+		for _, f := range decls.structs[parts[0]] {
+			j, omit := f.JSON, f.Omit
+			if j == "-" {
+				j = decls.premarshalGo[parts[0]][f.Name]
+				if pf, ok := decls.premarshalFields[parts[0]][f.Name]; ok {
+					omit = pf.Omit
+				}
+			}
+			if j == parts[1] {
+				found = true
+				c.Res.Count("documented-omitempty:hand-picked-compared")
+				if omit != want {
+					c.Res.Add(proto.Finding{Kind: "violation", Class: "omitempty-not-documented", What: fmt.Sprintf("%s is tagged omitempty=%v; by the documented rules (the options of the operation that declares this type, nothing else) it is %v", key, omit, want), Case: cs})
+				}
+			}
+		}
+		if !found {
+			c.Res.Add(proto.Finding{Kind: "violation", Class: "input-struct-shape", What: "hand-picked program: no field " + key + " in the generated code", Case: cs})
+		}
+	}
 	for _, m := range dataTypeRe.FindAllStringSubmatch(src, -1) {
 		opName := m[1]
 		if cs.Op != "" && cs.Op != opName {
@@ -874,4 +900,13 @@ func c04DocumentedOmitempty(c *Ctx, cs c04Case, schema *ast.Schema, decls *goDec
 	for _, v := range op.VariableDefinitions {
 		visit(v.Type.Name())
 	}
+}
+
+func sortedKeysB(m map[string]bool) []string {
+	ks := []string{}
+	for k := range m {
+		ks = append(ks, k)
+	}
+	sortStrings(ks)
+	return ks
 }
